@@ -25,7 +25,7 @@ RULE = ('Each case = one generated dataset (3/8/12/13/20 channels, 1-3 shanks fa
         'neighbourhood/shank/threshold restriction removes >= 1 channel, an explicit list is given, or a '
         'sparse record drops a column.')
 EXHAUSTIVE = {'quick': False, 'thorough': False}
-FLOORS = {'quick': {'evaluations': 2000, 'distinct_nontrivial': 800},
+FLOORS = {'quick': {'evaluations': 15000, 'distinct_nontrivial': 8000},
           'thorough': {'evaluations': 80000, 'distinct_nontrivial': 30000}}
 ASSUMPTIONS = ['distance ties: any channel set containing all strictly closer channels and only channels at '
                'most as far as the k-th is accepted; equal amplitudes only need non-increasing order',
@@ -35,7 +35,7 @@ NCS = [3, 8, 12, 13, 20]
 
 
 def plan(tier, seed):
-    n = 96 if tier == 'quick' else 4000
+    n = 320 if tier == 'quick' else 4000
     return [{'shard': i, 'n': NSHARDS, 'seed': seed, 'cases': n // NSHARDS} for i in range(NSHARDS)]
 
 
